@@ -85,9 +85,15 @@ func setRejoinContext(ctx *context) error {
 
 	switch v := ctx.phyPayload.MACPayload.(type) {
 	case *lorawan.RejoinRequestType02Payload:
+		if v.DevEUI != ctx.rejoinReqPayload.DevEUI {
+			return errors.New("DevEUI does not match the DevEUI of the rejoin-request")
+		}
 		ctx.joinType = v.RejoinType
 		ctx.devNonce = lorawan.DevNonce(v.RJCount0)
 	case *lorawan.RejoinRequestType1Payload:
+		if v.DevEUI != ctx.rejoinReqPayload.DevEUI {
+			return errors.New("DevEUI does not match the DevEUI of the rejoin-request")
+		}
 		ctx.joinEUI = v.JoinEUI
 		ctx.joinType = v.RejoinType
 		ctx.devNonce = lorawan.DevNonce(v.RJCount1)
